@@ -160,3 +160,21 @@ Example C06_py_ex_current_code :
   py_fresh flags_current 30 (and_p (PMVar 0 [3] [] [] [] []) (PESub (PMVar 1 [] [] [] [] []) 1 (PEVar 2))) 3 = Some false /\
   py_fresh flags_current 30 (and_p (PMVar 0 [3] [] [] [] []) (PEVar 2)) 3 = Some true.
 Proof. vm_compute. repeat split; reflexivity. Qed.
+
+(** ================================================================================================
+    C06_source_*: the theorems stated of the functions GENERATED from the current source
+    (coq/Gen/PyPattern.v, rewritten from pattern.py / basic_interpreter.py on every run by translators/pypattern.py;
+    agreement with the model: coq/Py/GenPyPatternAgree.v). *)
+From Pi2 Require Import Py.GenSupport Gen.PyPattern Py.GenPyPatternAgree Py.SourceFacts.
+Theorem C06_source_py_fresh_is_judgement_of_expansion : forall se ss n p x r, corner_free se ss p = true ->
+  src_evar_is_free n p x = Some r -> r = e_fresh (expand flags_current p) x.
+Proof. exact source_fresh_expand. Qed.
+Corollary C06_source_py_fresh_sound : forall se ss n p x vars plugs q,
+  corner_free se ss p = true -> src_evar_is_free n p x = Some true ->
+  inst guards_sound (expand flags_current p) vars plugs = Some q -> concrete q = true -> efree x q = false.
+Proof.
+  intros se ss n p x vars plugs q Hc Hf Hi Hq.
+  apply (C06_e_fresh_sound (expand flags_current p) x vars plugs q); [|exact Hi|exact Hq].
+  symmetry. exact (source_fresh_expand se ss n p x true Hc Hf).
+Qed.
+Print Assumptions C06_source_py_fresh_sound.
